@@ -238,6 +238,8 @@ def leb128_obligations(ctx, rule):
         wh = next(n for n in ast.walk(fi.node) if isinstance(n, ast.While))
         masks = [n.right.value for n in ast.walk(wh) if isinstance(n, ast.BinOp) and isinstance(n.op, ast.BitAnd) and isinstance(n.right, ast.Constant)]
         shifts = [n.value.value for n in ast.walk(wh) if isinstance(n, ast.AugAssign) and isinstance(n.op, ast.RShift) and isinstance(n.value, ast.Constant)]
+        shifts += [n.value.right.value for n in ast.walk(wh) if isinstance(n, ast.Assign) and isinstance(n.value, ast.BinOp) and isinstance(n.value.op, ast.RShift) and isinstance(n.value.right, ast.Constant)
+                   and len(n.targets) == 1 and isinstance(n.targets[0], ast.Name) and isinstance(n.value.left, ast.Name) and n.value.left.id == n.targets[0].id]
         thr = wh.test.comparators[0].value if isinstance(wh.test, ast.Compare) and isinstance(wh.test.comparators[0], ast.Constant) and isinstance(wh.test.ops[0], ast.Gt) else None
         ok = len(masks) == 1 and len(shifts) == 1 and masks[0] + 1 == 1 << shifts[0] and thr == masks[0]
         ctx.ob(rule, fi, ok, "the payload mask, the shift and the loop threshold describe the same group width (mask %s, shift %s, threshold %s)" % (masks, shifts, thr), key="group width")
@@ -285,11 +287,22 @@ def _shift_count_iv(fn, name, formula, seen=()):
         # walk up the if/elif chain: an earlier branch that tests `<same left> % m == 0` excludes zero here
         node = defs[0]
         par = getattr(node, "_parent", None)
+        def is_zero_test(t):
+            if isinstance(t, ast.Compare) and len(t.ops) == 1 and isinstance(t.left, ast.Constant):
+                t = ast.Compare(left=t.comparators[0], ops=t.ops, comparators=[t.left])
+            return isinstance(t, ast.Compare) and len(t.ops) == 1 and isinstance(t.ops[0], ast.Eq) and isinstance(t.comparators[0], ast.Constant) and t.comparators[0].value == 0 \
+                and isinstance(t.left, ast.BinOp) and isinstance(t.left.op, ast.Mod) and ast.dump(t.left.left) == ast.dump(v.left) and ast.dump(t.left.right) == ast.dump(v.right)
+        def is_nonzero_test(t):
+            if isinstance(t, ast.UnaryOp) and isinstance(t.op, ast.Not):
+                return is_zero_test(t.operand)
+            if isinstance(t, ast.Compare) and len(t.ops) == 1 and isinstance(t.ops[0], ast.NotEq):
+                return is_zero_test(ast.Compare(left=t.left, ops=[ast.Eq()], comparators=t.comparators))
+            return isinstance(t, ast.BinOp) and isinstance(t.op, ast.Mod) and ast.dump(t.left) == ast.dump(v.left) and ast.dump(t.right) == ast.dump(v.right)
         while par is not None and not isinstance(par, ast.FunctionDef):
-            if isinstance(par, ast.If) and node in par.orelse or (isinstance(par, ast.If) and any(node is x for x in par.orelse)):
-                t = par.test
-                if isinstance(t, ast.Compare) and len(t.ops) == 1 and isinstance(t.ops[0], ast.Eq) and isinstance(t.comparators[0], ast.Constant) and t.comparators[0].value == 0 \
-                        and isinstance(t.left, ast.BinOp) and isinstance(t.left.op, ast.Mod) and ast.dump(t.left.left) == ast.dump(v.left) and ast.dump(t.left.right) == ast.dump(v.right):
+            if isinstance(par, ast.If):
+                in_else = any(node is x for x in par.orelse)
+                in_body = any(node is x for x in par.body)
+                if (in_else and is_zero_test(par.test)) or (in_body and is_nonzero_test(par.test)):
                     lo = 1
             node, par = par, getattr(par, "_parent", None)
         return (lo, m - 1)
